@@ -77,6 +77,10 @@ def container_ids(x, acc=None, _depth=0):
     elif isinstance(x, tuple):
         for v in x:
             container_ids(v, acc, _depth + 1)
+    elif type(x).__name__ == "Box":          # user-object data of the flows (defined below)
+        if id(x) not in acc:
+            acc[id(x)] = x
+            container_ids(x.items, acc, _depth + 1)
     return acc
 
 
@@ -123,9 +127,24 @@ def context_of(value):
 # ---------------------------------------------------------------------------------------------------
 # Part A: branches
 
-def make_flow(n):
-    """n values; each has list data and a private nested context (no aliasing between values)."""
-    return [([j], {"id": j, "tag": "t", "nest": {"k": [j]}, "output": {"prefix": "p"}})
+class Box(object):
+    """Data that is an ordinary user object: mutable, and hashable like every object (by identity)."""
+
+    def __init__(self, items):
+        self.items = items
+
+    def append(self, x):
+        self.items.append(x)
+
+    def __add__(self, other):
+        return self.items + other
+
+
+def make_flow(n, data="list"):
+    """n values; each has list data (or, data="obj", a user object holding the list) and a private
+    nested context (no aliasing between values)."""
+    return [([j] if data == "list" else Box([j]),
+             {"id": j, "tag": "t", "nest": {"k": [j]}, "output": {"prefix": "p"}})
             for j in range(n)]
 
 
@@ -238,7 +257,7 @@ MODES = ("run", "fill_compute", "fill_request_end", "fill_request_each")
 
 def mode_applicable(container, mode, kinds):
     t = kinds_type(kinds)
-    if container == "zip" and mode == "run":
+    if container.startswith("zip") and mode == "run":
         return False
     if mode == "run":
         return True
@@ -258,7 +277,7 @@ def drive(container, kinds, bufsize, n, mode, hostile, want_mutated=False):
     out.taps, out.objs, out.received = [], [], []
     out.exc = out.construct_exc = None
     out.mutated_input = False
-    explicit = (container == "zip") or (bufsize is None)
+    explicit = container.startswith("zip") or (bufsize is None)
     try:
         branches, taps = [], []
         for kind in kinds:
@@ -272,7 +291,7 @@ def drive(container, kinds, bufsize, n, mode, hostile, want_mutated=False):
     except Exception as e:      # construction problems are not C04's business
         out.construct_exc = type(e).__name__
         return out
-    flow = make_flow(n)
+    flow = make_flow(n, "obj" if container == "zip-obj" else "list")
     before = canon(flow) if want_mutated else None
 
     def consume(gen):
